@@ -141,6 +141,12 @@ def mutations(frame: bytes, rnd: random.Random, cmd: dict, n_random: int, full_f
                 if cmd["fr"] == "rtu":
                     out.append(("fieldcrc", bytes(m[:2]) + F.with_crc(bytes(m[2:-2]))))
     out.extend(resized(frame, rnd, cmd))
+    if cmd["fr"] == "aa55" and len(frame) >= 9:
+        # well-formed AA55 frames (length and checksum right) of another response type than the command expects
+        own = int.from_bytes(frame[4:6], "big")
+        for rt in sorted({0x019A, 0x02B9, 0x03B6, 0x0182, 0x0186, 0x0189, 0x0000, 0xFFFF, own ^ 0x0001, own ^ 0x0100, own ^ 0x8000} - {own}):
+            f = frame[:4] + rt.to_bytes(2, "big") + frame[6:-2]
+            out.append(("rtype", f + (sum(f) & 0xFFFF).to_bytes(2, "big")))
     for _ in range(n_random):
         m = bytearray(frame)
         kind = rnd.randrange(4)
